@@ -787,3 +787,10 @@ Lemma max_messages_semantics_full_in_order e a :
   exists d, fresh e a = OutOrder d /\ d_msgs d = map RFile (spec_messages e a false) /\
             Subseq (spec_messages e a false) (e_log e).
 Proof. intros He Hd Ho. apply in_order_is_file_order_gen; auto using stored_ok_full. Qed.
+
+(* ------------------------------------------------------------------------------------------------ *)
+(** * open() of another file on the same loader *)
+
+Lemma open_resets e1 h1 e2 h2 a :
+  env_ok e2 -> snd (read e2 (run e2 (reopen (run e1 init_state h1)) h2) a) = fresh e2 a.
+Proof. intros He. change (reopen (run e1 init_state h1)) with init_state. apply cache_transparent. exact He. Qed.
